@@ -1,19 +1,27 @@
-"""Life cycle of an HTTPResponse (urllib3/response.py) -- growth of the specification beyond the listed clauses.
-Serves C01 (slot conservation, only urllib3 errors, interrupts propagate), C02 (no internal error / no hang under every
-interleaving) and C13 (a cut-off body is never presented as complete).
+"""Life cycle of an HTTPResponse (urllib3/response.py) and of the connection it borrows from its pool -- growth of the
+specification beyond the listed clauses (DESIGN.md section 8, item 4 and more).  Serves C01 (slot conservation, only urllib3
+errors, interrupts propagate, no orphan socket), C02 (no internal error, no hang under every interleaving) and C13 (a cut-off
+body is never presented as complete; its connection is never handed to another request).
 
-stage 1  TLC checks spec/RespLife.tla exhaustively: the sequential part (one caller, every sequence of calls over
-         {read, read(n), read1(n), stream step, release_conn, drain_conn, close, shutdown, drop} x framing x server
-         behaviour x preload mode; history hidden by a VIEW) and the two-thread part (reader x disposer x server,
-         every interleaving at the grain of the yield points, safety + liveness) -- once for the repaired design
-         (every rule must hold), once per known deviation (TLC must refute exactly the expected rule: the rules
-         bite), once for the code as found (deviations detected by probing the real tree)
-stage 2  TLC emits every call sequence (sequential) / every complete schedule (two threads) with the Model's
-         expected observations; each is replayed on a REAL HTTPResponse produced by a REAL HTTPConnectionPool
-         over vh/net.py, step by step under a scheduler whose step is exactly the Model's step
-stage 3  bounded-preemption DFS and seeded random schedules / call sequences over the real code
-stage 4  every recorded trace (observable projection after every step) is validated by TLC against
-         spec/RespLife_Trace.tla: Rules (hard) and Model refinement (drift)
+spec/RespLife.tla is implementation-shaped: one action = the code one thread runs between two YIELD POINTS -- ten source lines
+of response.py selected by pattern (LABELS below: _raw_read's fp check and length bookkeeping, the two decisions of
+_error_catcher's finally, the three statements of release_conn, the two halves of close(), shutdown()'s test), the pool
+queue's put, the socket's recv / shutdown and the lock of the BufferedReader http.client reads from.  This module installs
+exactly those yield points over the REAL code (sys.monitoring LINE events, QueueCls, a socket subclass of vh/net.py), so a
+behaviour of the spec is a schedule of the real code and vice versa.
+
+stage 1  TLC checks the Rules exhaustively on the Model: sequential part (one caller, every sequence of calls over
+         {read, read(n), read1(n), stream step, release_conn, drain_conn, close, shutdown} + drop, x framing x server
+         behaviour x preload mode; history hidden by a VIEW) and two-thread part (reader x disposer x server, every
+         interleaving; safety, and liveness under weak fairness) -- for the repaired design (all rules hold), for the
+         repaired design minus one repair / plus one design-level mutant (TLC must refute the expected rule: the rules
+         bite) and for the code as found (the repairs present in the tree are detected by probing the real code)
+stage 2  TLC emits every call sequence / every complete schedule of pinned scenarios with the Model's expected
+         observations; each is replayed step by step on a REAL HTTPResponse produced by a REAL HTTPConnectionPool
+stage 3  bounded-preemption DFS and seeded random schedules over the real threads; seeded random longer call sequences
+stage 4  every recorded trace (observable projection after every step) is judged by TLC with spec/RespLife_Trace.tla:
+         the Rules (hard: violation unless the failing step matches a recorded finding of known_findings.d/RESPLIFE.json)
+         and refinement of the Model run alongside (drift)
 """
 from __future__ import annotations
 
@@ -680,6 +688,13 @@ def detect_fixes():
                   probe=False)
     if t5["obs"][-1][24] != "err:AttributeError":
         fixes.append("closeunder")
+    # close() has closed the http.client response but not yet the connection when the reader's read() finds the file closed
+    order = "abbaaaaaab"
+    t6 = run_conc({"fr": "cl", "sv": "ka", "mode": "stream"}, ["read"], ["close"],
+                  lambda en, n, last, pcs: order[n] if n < len(order) and order[n] in en else (last if last in en else en[0]), probe=False)
+    fin = as_dict(t6["obs"][-1])
+    if not (fin["pooled"] and fin["csock"] and fin["fedn"] < 2):
+        fixes.append("releaseunread")
     _DETECTED["v"] = sorted(fixes)
     return _DETECTED["v"]
 
@@ -1012,10 +1027,10 @@ def dfs_schedules(scn, pa, pb, bound, cap):
 
 
 # ------------------------------------------------------------------------------------------ judging a trace
-CLAUSES = ["SlotReturnedExactlyOnce", "SlotNotLost", "NotPooledWhileOpen", "NeverHangs", "OnlyUrllib3Errors",
+CLAUSES = ["SlotReturnedExactlyOnce", "SlotNotLost", "NotPooledWhileOpen", "CleanWhenPooled", "NeverHangs", "OnlyUrllib3Errors",
            "InterruptsPropagate", "NoOrphanSocket", "NoUseAfterRelease", "ShutdownActs", "CutNeverComplete",
            "DisposalIdempotent", "ClosedIsStable", "CloseIsFinal", "ShutdownUnblocksReader", "NoDeadlock", "EveryoneFinishes", "ProbeServed"]
-SERVES = {"SlotReturnedExactlyOnce": "C01", "SlotNotLost": "C01", "NotPooledWhileOpen": "C02", "NeverHangs": "C02",
+SERVES = {"SlotReturnedExactlyOnce": "C01", "SlotNotLost": "C01", "NotPooledWhileOpen": "C02", "CleanWhenPooled": "C13", "NeverHangs": "C02",
           "OnlyUrllib3Errors": "C01", "InterruptsPropagate": "C01", "NoOrphanSocket": "C01", "NoUseAfterRelease": "C02",
           "ShutdownActs": "C02", "CutNeverComplete": "C13", "DisposalIdempotent": "C01", "ClosedIsStable": "C01", "CloseIsFinal": "C01",
           "ShutdownUnblocksReader": "C02", "NoDeadlock": "C02", "EveryoneFinishes": "C02", "ProbeServed": "C13"}
@@ -1041,6 +1056,10 @@ def facts_of(tr, part, clause, pos):
     # did a disposal call or an error complete before this call began (sequential part)?
     before = [as_dict(x) for x in obs[:i]]
     f["after_dispose"] = any(b["ndisp"] >= 1 or b["nrerr"] >= 1 for b in before)
+    # was this call the resumption of a suspended read_chunked generator whose http.client response had been closed meanwhile?
+    starts = [k for k in range(1, i + 1) if steps[k - 1][0] == t and steps[k - 1][1] != "none"]
+    at = as_dict(obs[starts[-1] - 1]) if starts else o
+    f["resumed_closed_generator"] = bool(at["gen"] == "chunk" and not at["hfp"])
     # two threads: did the OTHER thread take the http.client response away (fp = None) while this one was parked in recv?
     other = "b" if t == "a" else "a"
     cu = False
@@ -1049,6 +1068,17 @@ def facts_of(tr, part, clause, pos):
         if steps[k - 1][0] == other and prev["pc_" + t] == "Recv" and prev["hfp"] and not cur["hfp"]:
             cu = True
     f["closed_under"] = cu
+    # a thread put the connection back after a step of the OTHER thread had closed the http.client response (an explicit
+    # close(), or http.client giving up at an unexpected end of file): isclosed() then says nothing about the body
+    pafc = False
+    for k in range(len(steps)):
+        p = steps[k][0]
+        if p in ("a", "b") and as_dict(obs[k])["pc_" + p] == "QPut":
+            for j in range(1, k + 1):
+                if steps[j - 1][0] not in (p, "e") and as_dict(obs[j - 1])["hfp"] and not as_dict(obs[j])["hfp"]:
+                    pafc = True
+    f["put_after_foreign_close"] = pafc
+    f["two_readers"] = "drain" in (tr.get("pb") or [])
     putters = {steps[k][0] for k in range(len(steps)) if steps[k][0] in ("a", "b") and as_dict(obs[k])["pc_" + steps[k][0]] == "QPut"}
     f["puts_by"] = "two-threads" if len(putters) >= 2 else "one-thread"
     return f
@@ -1089,14 +1119,14 @@ _FIND = [None]
 
 
 # --------------------------------------------------------------------------------------------------- stage 1
-SEQ_INV = ["TypeOK", "InvSlotAtMostOnce", "InvSlotNotLost", "InvNotPooledWhileOpen", "InvNeverHangs", "InvOnlyUrllib3Errors",
+SEQ_INV = ["TypeOK", "InvSlotAtMostOnce", "InvSlotNotLost", "InvNotPooledWhileOpen", "InvCleanWhenPooled", "InvNeverHangs", "InvOnlyUrllib3Errors",
            "InvInterruptsPropagate", "InvNoOrphanSocket"]
 SEQ_PROP = ["PropNoUseAfterRelease", "PropShutdownActs", "PropCutNeverComplete", "PropDisposalIdempotent", "PropClosedIsStable",
             "PropCloseIsFinal"]
-CONC_INV = ["TypeOK", "InvSlotAtMostOnce", "InvSlotNotLost", "InvNotPooledWhileOpen", "InvNeverHangs", "InvOnlyUrllib3Errors",
+CONC_INV = ["TypeOK", "InvSlotAtMostOnce", "InvSlotNotLost", "InvNotPooledWhileOpen", "InvCleanWhenPooled", "InvNeverHangs", "InvOnlyUrllib3Errors",
             "InvShutdownUnblocksReader", "InvNoDeadlock"]
 CONC_PROP = SEQ_PROP + ["ShutdownLeadsToDone"]
-ALLFIX = ["atomicrelease", "chunkresume", "closeunder", "shutdown"]
+ALLFIX = ["atomicrelease", "chunkresume", "closeunder", "releaseunread", "shutdown"]
 
 
 def _cfg(part, fixes, extra="", view=True, check=True):
@@ -1121,6 +1151,8 @@ def stage1_jobs(fixes, quick):
             ("conc-without-atomicrelease-repair", "conc", wo("atomicrelease"), {"InvSlotAtMostOnce"},
              dict(kinds=[("cl", "ka")], pa=[["read"]], pb=[["release"]])),
             ("conc-without-closeunder-repair", "conc", wo("closeunder"), {"InvOnlyUrllib3Errors"},
+             dict(kinds=[("cl", "ka")], pa=[["read"]], pb=[["close"]])),
+            ("conc-without-releaseunread-repair", "conc", wo("releaseunread"), {"InvCleanWhenPooled"},
              dict(kinds=[("cl", "ka")], pa=[["read"]], pb=[["close"]])),
             ("conc-without-shutdown-repair", "conc", wo("shutdown"), {"PropNoUseAfterRelease", "InvOnlyUrllib3Errors"},
              dict(kinds=[("cl", "ka"), ("cl", "close")], pa=[["read"]], pb=[["shutdown"]])),
@@ -1300,9 +1332,10 @@ def run(rep):
     # ---- all TLC work that does not depend on the real code: stage 1, emission of call sequences and of schedules
     plans = ([(2, SEQ_KINDS, ["stream"]), (1, SEQ_KINDS, ["preload", "preload_norel"])] if quick else
              [(4, [k], ["stream"]) for k in SEQ_KINDS] + [(2, SEQ_KINDS, ["preload", "preload_norel"])])
-    pins = ([([("cl", "ka"), ("cl", "never")], [["read"]], [["shutdown"]]), ([("eof", "close")], [["read"]], [["release"]])] if quick else
-            [([("cl", "ka"), ("cl", "never"), ("cl", "cut"), ("chunked", "ka")], [["read"]], [["shutdown"], ["release"]]),
-             ([("eof", "close"), ("cl", "close")], [["read"], ["readn", "readn", "readn"]], [["shutdown"], ["release"]]),
+    pins = ([([("cl", "ka"), ("cl", "never")], [["read"]], [["shutdown"]]), ([("eof", "close")], [["read"]], [["release"]]),
+             ([("cl", "ka")], [["read"]], [["close"]])] if quick else
+            [([("cl", "ka"), ("cl", "never"), ("cl", "cut"), ("chunked", "ka")], [["read"]], [["shutdown"], ["release"], ["drain"]]),
+             ([("eof", "close"), ("cl", "close")], [["read"]], [["shutdown"], ["release"], ["close"]]),
              ([("cl", "ka")], [["read"]], [["close"], ["shutdown", "close"]])])
     w1 = 1 if quick else max(1, min(4, JOBS // 2))
     with ThreadPoolExecutor(max(1, JOBS // w1)) as ex:
@@ -1327,7 +1360,7 @@ def run(rep):
             items.append((f"s{emitted}", {"fr": sq["fr"], "sv": sq["sv"], "mode": sq["mode"]}, ops, sq["hist"]))
     # seeded random longer sequences (no expected observations: judged by TLC only)
     rng = random.Random(rep.seed * 7919 + 17)
-    nrand = 300 if quick else 20000
+    nrand = 300 if quick else 8000
     for k in range(nrand):
         fr, sv = rng.choice(SEQ_KINDS)
         mode = "stream" if rng.random() < 0.85 else rng.choice(["preload", "preload_norel"])
@@ -1361,17 +1394,17 @@ def run(rep):
     rep.extra["resplife_sequences_replayed"] = len(res)
     tm["replay_seq"] = round(_t.time() - t0, 1)
     # ---- stage 2b / 3: two threads
-    dops = ["shutdown", "close", "release"]
+    dops = ["shutdown", "close", "release", "drain"]
     if quick:
         ckinds = [("cl", "ka"), ("cl", "close"), ("cl", "never"), ("chunked", "ka"), ("chunked", "cut"), ("eof", "close")]
-        progs_b = [[x] for x in dops] + [["shutdown", "close"], ["close", "release"]]
+        progs_b = [[x] for x in dops] + [["shutdown", "close"], ["close", "release"], ["drain", "close"]]
     else:
         ckinds = [("cl", "ka"), ("cl", "close"), ("cl", "cut"), ("cl", "never"), ("chunked", "ka"), ("chunked", "cut"), ("chunked", "never"),
                   ("chunked", "close"), ("eof", "close")]
         progs_b = [[x] for x in dops] + [[x, y] for x in dops for y in dops]
     progs_a = [["read"], ["readn", "readn", "readn"]]
     jobs, nsched = [], 0
-    cap = 200 if quick else 6000
+    cap = 200 if quick else 3000
     for (kinds, pa, pb), (scheds, r) in sched_emitted:
         rep.add_tlc(f"RespLife emission of complete schedules ({kinds}, reader {pa}, disposer {pb})", r)
         srng = random.Random(rep.seed * 104729 + len(jobs))
@@ -1383,7 +1416,7 @@ def run(rep):
                          {"stuck": sc["stuck"], "obs": sc["fin"]}))
     rep.extra["resplife_tlc_schedules_emitted"] = nsched
     bound = 1 if quick else 2
-    dcap = 20 if quick else 400
+    dcap = 20 if quick else 150
     k = 0
     for fr, sv in ckinds:
         for pa in progs_a:
@@ -1391,7 +1424,7 @@ def run(rep):
                 k += 1
                 scn = {"fr": fr, "sv": sv, "mode": "stream"}
                 jobs.append(("dfs", f"d{k}", scn, pa, pb, bound, dcap))
-                jobs.append(("rnd", f"x{k}", scn, pa, pb, rep.seed * 1000003 + k, 4 if quick else 150))
+                jobs.append(("rnd", f"x{k}", scn, pa, pb, rep.seed * 1000003 + k, 4 if quick else 40))
     srng = random.Random(rep.seed + 5)
     srng.shuffle(jobs)
     per = max(1, len(jobs) // (JOBS * (1 if quick else 6)) + 1)
